@@ -107,7 +107,11 @@ def rec(detector, **kw):
     name = detector.current_running_model_name
     if HOOK:
         HOOK("model.in:" + name)
-    TRACE.append({"name": name, "kw": tagged(kw), "det": id(detector), **clock(detector)})
+    try:
+        env = [float(detector.environment.temperature), float(detector.characteristics.quantum_efficiency)]
+    except Exception:  # noqa: BLE001
+        env = None
+    TRACE.append({"name": name, "kw": tagged(kw), "det": id(detector), "env": env, **clock(detector)})
     _maybe_fail(detector, name)
     if HOOK:
         HOOK("model.out:" + name)
